@@ -184,3 +184,71 @@ Proof. vm_compute. reflexivity. Qed.
 Example C06_ex_walk_clash :
   export [ {| hm_name := "d.A"; hm_insts := [] |}; {| hm_name := "d.A"; hm_insts := [(HMod 0, 0)] |} ] [] [1%nat] = Error EName.
 Proof. reflexivity. Qed.
+
+(* ===============================================================================================================
+   Strengthening round 2: what reaches a RETURNED package.
+   (a) held names vs. carried names (Model/C06Held.v): the exporter writes the name each attribute CARRIES, the Module's containers
+       are keyed by the name it is HELD under; Orphanage's name check is what makes the exported names unique.
+   (b) histories (Model/C06Hist.v): after ANY history of creations, elaborations, exports and re-targetings, every module of a
+       returned package was completed by the call and passes the checks of elaboration. *)
+Require Import Hdl21.Model.C06Held Hdl21.Proofs.C06HeldProofs Hdl21.Model.C06Hist Hdl21.Proofs.C06HistProofs.
+From Coq Require Import String.
+
+(* for every history of setattr / add / re-naming operations on a Module, and every container (`sel`): if Orphanage accepts the
+   Module, the names the exporter writes are exactly the keys of the container, and no name is written twice *)
+Theorem C06_held_names_unique (ops : list hop) (sel : objid -> bool) : orphanage_ok (hrun ops) = true ->
+  export_names sel (hrun ops) = map Some (map fst (filter (fun ko => sel (snd ko)) (h_ns (hrun ops)))) /\
+  NoDup (export_names sel (hrun ops)).
+Proof. intros H. split; [exact (held_export_keys sel ops H)|exact (held_export_nodup sel ops H)]. Qed.
+Print Assumptions C06_held_names_unique.
+
+(* the dict invariant the above rests on: one entry per key, whatever was set, replaced or re-named *)
+Theorem C06_held_keys_unique (ops : list hop) : NoDup (map fst (h_ns (hrun ops))).
+Proof. exact (hrun_keys_nodup ops). Qed.
+Print Assumptions C06_held_keys_unique.
+
+(* without the name check (the seeded change C06r4-C for Instances): `inv1 = inv2 = Inv(..)` is written as two instances `inv2` *)
+Theorem C06_held_names_refuted_without_check :
+  exists ops sel, ~ NoDup (export_names sel (hrun ops)) /\ orphanage_ok (hrun ops) = false.
+Proof.
+  exists [HSet "a" 0%nat; HSet "inv1" 1%nat; HSet "inv2" 1%nat], (fun o => Nat.eqb o 1). split; [|vm_compute; reflexivity].
+  vm_compute. intros H. inversion H as [|? ? Hn _]. apply Hn. left. reflexivity.
+Qed.
+Print Assumptions C06_held_names_refuted_without_check.
+
+(* non-vacuity: an instance replaced under its own key, and an attribute re-named and then set again under that name, are accepted *)
+Example C06_ex_held_accepted :
+  orphanage_ok (hrun [HSet "a" 0%nat; HSet "i" 1%nat; HSet "i" 2%nat; HRename 0%nat "b"; HSet "a" 0%nat]) = true /\
+  export_names (fun _ => true) (hrun [HSet "a" 0%nat; HSet "i" 1%nat; HSet "i" 2%nat; HRename 0%nat "b"; HSet "a" 0%nat]) = [Some "a"; Some "i"].
+Proof. split; vm_compute; reflexivity. Qed.
+Example C06_ex_held_renamed_refused : orphanage_ok (hrun [HSet "first" 0%nat; HSet "second" 1%nat; HRename 0%nat "second"]) = false.
+Proof. vm_compute. reflexivity. Qed.
+
+(* for every history and every tops: every module of a returned package was completed by the call and passes the checks of
+   elaboration - also a module that was hung below an already completed module after the last call *)
+Theorem C06_hist_package_checked (ops : list eop) (tops : list nat) st' pk :
+  C06Hist.export (erun ops) tops = Some (st', pk) ->
+  forall m, In m pk -> In m (e_done st') /\ ok_at (e_heap st') m = true.
+Proof. intros H. exact (export_checked _ tops st' pk (erun_inv ops) H). Qed.
+Print Assumptions C06_hist_package_checked.
+
+(* the seeded change C06r4-B (tops carrying the mark of an earlier elaboration are not walked again): a module that fails its checks,
+   hung below an exported top, is returned in the next package *)
+Theorem C06_hist_refuted_skipping_marked :
+  exists ops tops st' pk m, export_skipping_marked (erun ops) tops = Some (st', pk) /\ In m pk /\ ok_at (e_heap st') m = false.
+Proof.
+  exists [ONew {| hm_kids := []; hm_ok := true |}; ONew {| hm_kids := [0%nat]; hm_ok := true |}; OExport [1%nat];
+          ONew {| hm_kids := []; hm_ok := false |}; ORetarget 1 0 2], [1%nat].
+  eexists. eexists. exists 2%nat. vm_compute. split; [reflexivity|]. split; [|reflexivity]. left. reflexivity.
+Qed.
+Print Assumptions C06_hist_refuted_skipping_marked.
+
+(* the same history on the model of the code as it is: refused; with a revised child that passes its checks: exported, child included *)
+Example C06_ex_hist_refused :
+  C06Hist.export (erun [ONew {| hm_kids := []; hm_ok := true |}; ONew {| hm_kids := [0%nat]; hm_ok := true |}; OExport [1%nat];
+                        ONew {| hm_kids := []; hm_ok := false |}; ORetarget 1 0 2]) [1%nat] = None.
+Proof. vm_compute. reflexivity. Qed.
+Example C06_ex_hist_exported :
+  option_map snd (C06Hist.export (erun [ONew {| hm_kids := []; hm_ok := true |}; ONew {| hm_kids := [0%nat]; hm_ok := true |}; OExport [1%nat];
+                        ONew {| hm_kids := [0%nat]; hm_ok := true |}; ORetarget 1 0 2]) [1%nat]) = Some [0%nat; 2%nat; 1%nat].
+Proof. vm_compute. reflexivity. Qed.
